@@ -164,13 +164,37 @@ def has_residue_term(cj: dict) -> bool:
     return False
 
 
+def _dedupe_close(cj: dict, vm: C.VarMap) -> Optional[dict]:
+    """the contract with every term dropped that is within 1e-12 (relative) of an assumption or of an earlier term of the same list
+    without being identical to it; None if nothing was dropped"""
+    def close(t, u):
+        return t != u and C.terms_close(G.w_term(t, vm), G.w_term(u, vm), rtol=1e-12)
+
+    dropped = False
+    a_out: List[dict] = []
+    for t in cj["a"]:
+        if any(close(t, u) for u in a_out):
+            dropped = True
+            continue
+        a_out.append(t)
+    g_out: List[dict] = []
+    for t in cj["g"]:
+        if any(close(t, u) for u in a_out + g_out):
+            dropped = True
+            continue
+        g_out.append(t)
+    if not dropped:
+        return None
+    return {"a": a_out, "g": g_out, "ins": cj["ins"], "outs": cj["outs"]}
+
+
 def compare_contract_result(impl: dict, model: dict, vm: C.VarMap) -> Optional[str]:
     alts = [model, model.get("alt", model)]
     if "err" in impl:
         if any(a.get("err") == impl["err"] for a in alts):
             return None
         if any(a.get("err") == impl["err"] for a in model.get("near", [])):
-            return "TIE: float near-tie (reproduced when every LP optimum is nudged by 1e-10)"
+            return "TIE: float near-tie (reproduced when every LP optimum is nudged by 1e-10 or every LP is solved inside |v| <= 1e9: float near-tie or a slope below float resolution)"
         return f"impl {impl['err']} vs model {[a.get('err', 'ok') for a in alts]}"
     for a in alts:
         if "ok" in a and contract_close(impl["ok"], a["ok"], vm):
@@ -179,10 +203,17 @@ def compare_contract_result(impl: dict, model: dict, vm: C.VarMap) -> Optional[s
 
     for a in model.get("near", []):
         if ("err" in impl and a.get("err") == impl["err"]) or ("ok" in impl and "ok" in a and contract_close(impl["ok"], a["ok"], vm)):
-            return "TIE: float near-tie (reproduced when every LP optimum is nudged by 1e-10)"
+            return "TIE: float near-tie (reproduced when every LP optimum is nudged by 1e-10 or every LP is solved inside |v| <= 1e9: float near-tie or a slope below float resolution)"
     sa, sb = ({k: v for k, v in a.items() if k not in ("id", "alt", "near")} for a in alts)
     if json.dumps(sa, sort_keys=True) != json.dumps(sb, sort_keys=True):
         return "TIE: exact ties / tolerance-band verdicts resolved in a mixed way"
+    if "ok" in impl:
+        # two terms that are the same term in exact arithmetic but were computed along different float paths (4/3 as
+        # 1.3333333333333335 and 1.3333333333333333) are not `==` for the implementation, so a duplicate survives that the exact
+        # model removes syntactically: compare again with such last-bit duplicates removed from the implementation's result
+        d = _dedupe_close(impl["ok"], vm)
+        if d is not None and any("ok" in a and contract_close(d, a["ok"], vm) for a in alts):
+            return "TIE: float rounding (a term of the result duplicates another one up to the last bits; exact arithmetic merges them)"
     a = alts[0]
     if "ok" in impl and has_residue_term(impl["ok"]):
         return "TIE: float cancellation residue (the implementation's result has a term whose every coefficient is below 1e-9)"
